@@ -1,20 +1,30 @@
 import ICS.Driver.Shaping
 import ICS.Driver.ValSet
 import ICS.Driver.Provider
+import ICS.Driver.Consumer
 open ICS ICS.Driver
 
 structure DState where
   acc : Acc := {}
   vs  : VSState := {}
   pv  : ProvDrv := {}
+  cd  : ConsDrv := {}
+  stream : String := ""
 
 def dispatch (d : DState) (s : Step) : DState :=
   let a := { d.acc with ops := d.acc.ops + 1 }
   match s.op.name with
   | "powercap" => { d with acc := stepPowercap a s }
   | "keyorder" | "diff" | "accum" | "cinit" | "applycc" =>
-    let r := stepValSet d.vs a s
-    { d with vs := r.1, acc := r.2 }
+    if d.stream == "consumer" then
+      let r := stepCons d.cd a s
+      { d with cd := r.1, acc := r.2 }
+    else
+      let r := stepValSet d.vs a s
+      { d with vs := r.1, acc := r.2 }
+  | "cbegin" | "cend" | "crecvvsc" | "cslash" | "cack" | "cqueuematured" =>
+    let r := stepCons d.cd a s
+    { d with cd := r.1, acc := r.2 }
   | _ =>
     let r := stepProv d.pv a s
     { d with pv := r.1, acc := r.2 }
@@ -25,7 +35,9 @@ def main (args : List String) : IO UInt32 := do
     let txt ← IO.FS.readFile path
     let lines := (txt.splitOn "\n").zipIdx.map fun p => (p.2 + 1, parseLine p.1)
     let steps := groupSteps lines
-    let d := steps.foldl dispatch {}
+    let hdr := (lines.find? fun p => p.2.kind == "hdr").map (·.2)
+    let stream := match hdr with | some h => h.get "stream" | none => ""
+    let d := steps.foldl dispatch { stream := stream }
     IO.println d.acc.report
     return (if d.acc.mismatches.isEmpty && d.acc.specfails.isEmpty then 0 else 1)
   | _ =>
